@@ -255,9 +255,24 @@ def run_many(harnesses, log, logdir, mem_budget_gb=40, max_par=8):
             f"checks={r.checks_total} failed={r.checks_failed} covers={r.covers_sat}/{r.covers_total} "
             f"solver={r.solver_s:.1f}s wall={r.wall_s:.1f}s rss={r.rss_mb}MB {r.reason}")
 
+    def mem_available_gb():
+        try:
+            for ln in open("/proc/meminfo"):
+                if ln.startswith("MemAvailable:"):
+                    return int(ln.split()[1]) / (1 << 20)
+        except Exception:
+            pass
+        return 1e9
+
     threads = []
     for h in pending:
         need = int(h.get("mem_gb", 16))
+        # other checks may run on this machine at the same time: never start a harness the machine has no room for
+        # (an out-of-memory CBMC run is reported as inconclusive, which a merely busy machine must not cause)
+        waited = 0
+        while mem_available_gb() < min(need, 12) + 4 and waited < 1800:
+            time.sleep(5)
+            waited += 5
         with lock:
             while state["run"] >= max_par or (state["run"] > 0 and state["mem"] + need > mem_budget_gb):
                 lock.wait()
